@@ -239,4 +239,266 @@ theorem sameDs_expandWildcard (p : ProvView) (g : LGraph) : SameDs g (expandWild
       · exact SameDs.refl b
     · exact SameDs.refl b
 
+/-! ### the step relations of the walk -/
+
+/-- from `g` to `g'` exactly the datasets of `S` became READ; WRITE on datasets unchanged; `g'` is well‑formed -/
+structure Adds (g g' : LGraph) (S : List DS) : Prop where
+  inv : Inv g'
+  rd : ∀ d, d.isDataset = true → (RD g' d ↔ RD g d ∨ d ∈ S)
+  wr : ∀ d, d.isDataset = true → (WR g' d ↔ WR g d)
+
+/-- the sandwich: READ only grows, and by at most the datasets of `S` -/
+structure Sub (g g' : LGraph) (S : List DS) : Prop where
+  inv : Inv g'
+  mono : ∀ d, d.isDataset = true → RD g d → RD g' d
+  sub : ∀ d, d.isDataset = true → RD g' d → RD g d ∨ d ∈ S
+  wr : ∀ d, d.isDataset = true → (WR g' d ↔ WR g d)
+
+theorem Adds.refl {g : LGraph} (hi : Inv g) : Adds g g [] :=
+  ⟨hi, fun d _ => by simp, fun _ _ => Iff.rfl⟩
+
+theorem Adds.trans {a b c : LGraph} {S T : List DS} (h1 : Adds a b S) (h2 : Adds b c T) : Adds a c (S ++ T) :=
+  ⟨h2.inv, fun d hd => by rw [h2.rd d hd, h1.rd d hd, List.mem_append, or_assoc],
+   fun d hd => (h2.wr d hd).trans (h1.wr d hd)⟩
+
+theorem Adds.congr {g g' : LGraph} {S T : List DS} (h : Adds g g' S)
+    (hST : ∀ d, d.isDataset = true → (d ∈ S ↔ d ∈ T)) : Adds g g' T :=
+  ⟨h.inv, fun d hd => by rw [h.rd d hd, hST d hd], h.wr⟩
+
+theorem Adds.toSub {g g' : LGraph} {S : List DS} (h : Adds g g' S) : Sub g g' S :=
+  ⟨h.inv, fun d hd hr => (h.rd d hd).mpr (Or.inl hr), fun d hd hr => (h.rd d hd).mp hr, h.wr⟩
+
+theorem Sub.refl {g : LGraph} (hi : Inv g) : Sub g g [] := (Adds.refl hi).toSub
+
+theorem Sub.trans {a b c : LGraph} {S T : List DS} (h1 : Sub a b S) (h2 : Sub b c T) : Sub a c (S ++ T) :=
+  ⟨h2.inv, fun d hd hr => h2.mono d hd (h1.mono d hd hr),
+   fun d hd hr => by
+     rw [List.mem_append]
+     rcases h2.sub d hd hr with x | x
+     · rcases h1.sub d hd x with y | y
+       · exact Or.inl y
+       · exact Or.inr (Or.inl y)
+     · exact Or.inr (Or.inr x),
+   fun d hd => (h2.wr d hd).trans (h1.wr d hd)⟩
+
+theorem Sub.weaken {g g' : LGraph} {S T : List DS} (h : Sub g g' S)
+    (hST : ∀ d, d.isDataset = true → d ∈ S → d ∈ T) : Sub g g' T :=
+  ⟨h.inv, h.mono, fun d hd hr => (h.sub d hd hr).imp id (hST d hd), h.wr⟩
+
+/-- a crawl step that can only re‑discover what an exact step has already added -/
+theorem Adds.absorb {a b c : LGraph} {S T : List DS} (h1 : Adds a b S) (h2 : Sub b c T)
+    (hTS : ∀ d, d.isDataset = true → d ∈ T → d ∈ S) : Adds a c S :=
+  ⟨h2.inv, fun d hd => by
+     constructor
+     · intro hr
+       rcases h2.sub d hd hr with x | x
+       · exact (h1.rd d hd).mp x
+       · exact Or.inr (hTS d hd x)
+     · intro hr
+       exact h2.mono d hd ((h1.rd d hd).mpr hr),
+   fun d hd => (h2.wr d hd).trans (h1.wr d hd)⟩
+
+theorem SameDs.adds {g g' : LGraph} (h : SameDs g g') (hi : Inv g) : Adds g g' [] :=
+  ⟨h.inv hi, fun d _ => by simp [RD, h.eq d], fun d _ => by simp [WR, h.eq d]⟩
+
+/-! ### `cteObjs`, `datasetOfElem` without CTEs -/
+
+theorem tagSet_nil_of (g : LGraph) (t : Tag) (h : ∀ d, g.tag (.ds d) t ≠ some true) : tagSet g t = [] := by
+  unfold tagSet
+  rw [List.filterMap_eq_nil_iff]
+  intro n hn
+  cases n with
+  | ds d =>
+    have := (List.mem_filter.mp hn).2
+    simp only [beq_iff_eq] at this
+    exact absurd this (h d)
+  | col _ _ => rfl
+  | str _ => rfl
+
+theorem cteObjs_nil {g : LGraph} (h : NoCte g) : cteObjs g = [] := by
+  unfold cteObjs objsOf
+  rw [tagSet_nil_of g .cte h]; rfl
+
+theorem mem_tagSet (g : LGraph) (t : Tag) (d : DS) : d ∈ tagSet g t ↔ g.tag (.ds d) t = some true := by
+  unfold tagSet
+  simp only [List.mem_filterMap, List.mem_filter, beq_iff_eq]
+  constructor
+  · rintro ⟨n, ⟨_, hn⟩, hd⟩
+    cases n with
+    | ds d' => simp only [dsOf, Option.some.injEq] at hd; rw [← hd]; exact hn
+    | col _ _ => simp [dsOf] at hd
+    | str _ => simp [dsOf] at hd
+  · intro h
+    refine ⟨.ds d, ⟨?_, h⟩, rfl⟩
+    apply Decidable.byContradiction
+    intro hn
+    rw [tag_of_not_mem _ _ _ hn] at h
+    cases h
+
+theorem map_d_objsOf (g : LGraph) (t : Tag) : (objsOf g t).map (·.d) = tagSet g t := by
+  unfold objsOf
+  rw [List.map_map]
+  conv => rhs; rw [← List.map_id (tagSet g t)]
+  rfl
+
+theorem datasetOfElem_table (env : Env) (g : LGraph) (hc : cteObjs g = []) (parts : List String) (alias : Option String)
+    (k : Bool) : datasetOfElem env g (.table parts alias k) = [mkTable env parts alias] := by
+  cases parts with
+  | nil => simp [datasetOfElem]
+  | cons n r =>
+    cases r with
+    | nil => simp [datasetOfElem, hc]
+    | cons _ _ => simp [datasetOfElem]
+
+theorem mkTable_d (env : Env) (parts : List String) (alias : Option String) :
+    (mkTable env parts alias).d = (mkTable env parts none).d := rfl
+
+theorem mkTable_isDataset (env : Env) (parts : List String) (alias : Option String) :
+    (mkTable env parts alias).d.isDataset = true := rfl
+
+theorem mkSubq_isDataset (raw : String) (alias : Option String) : (mkSubq raw alias).d.isDataset = false := rfl
+
+/-! ### compose / composeSub -/
+
+theorem tag_composeSub_of (g h : LGraph) (obj : DObj) (n : Node) (t : Tag) (hne : ¬(n = .ds obj.d ∧ t = .write)) :
+    (composeSub g obj h).tag n t = match h.tag n t with | some b => some b | none => g.tag n t := by
+  have hn : ¬(n ∈ [Node.ds obj.d] ∧ n ∈ h.nodes ∧ t = .write) := by
+    rintro ⟨a, _, c⟩
+    exact hne ⟨by simpa using a, c⟩
+  unfold composeSub
+  rw [tag_compose, tag_setTags, if_neg hn]
+  cases tag h n t <;> rfl
+
+theorem ds_ne_of_isDataset {d e : DS} (hd : d.isDataset = true) (he : e.isDataset = false) : Node.ds d ≠ Node.ds e := by
+  intro h
+  simp only [Node.ds.injEq] at h
+  rw [h, he] at hd
+  cases hd
+
+/-- `extract_subquery`: the sub‑holder `h` (read set `S`, no dataset written) is merged into `g` -/
+theorem adds_composeSub (g h : LGraph) (obj : DObj) (S : List DS) (hg : Inv g) (hobj : obj.d.isDataset = false)
+    (hh : Inv h) (hrd : ∀ d, d.isDataset = true → (RD h d ↔ d ∈ S)) (hwr : ∀ d, d.isDataset = true → ¬ WR h d) :
+    Adds g (composeSub g obj h) S := by
+  refine ⟨⟨?_, ?_, ?_⟩, ?_, ?_⟩
+  · intro d
+    rw [tag_composeSub_of _ _ _ _ _ (fun x => by cases x.2)]
+    have := hh.rd d
+    have := hg.rd d
+    cases hx : h.tag (.ds d) .read with
+    | none => simpa
+    | some b => cases b <;> simp_all
+  · intro d
+    rw [tag_composeSub_of _ _ _ _ _ (fun x => by cases x.2)]
+    have := hh.cte d
+    have := hg.cte d
+    cases hx : h.tag (.ds d) .cte with
+    | none => simpa
+    | some b => cases b <;> simp_all
+  · intro d hd
+    rw [tag_composeSub_of _ _ _ _ _ (fun x => ds_ne_of_isDataset hd hobj x.1)]
+    have := hh.wr d hd
+    have := hg.wr d hd
+    cases hx : h.tag (.ds d) .write with
+    | none => simpa
+    | some b => cases b <;> simp_all
+  · intro d hd
+    unfold RD
+    rw [tag_composeSub_of _ _ _ _ _ (fun x => by cases x.2)]
+    have h1 := hh.rd d
+    have h2 := hrd d hd
+    unfold RD at h2
+    cases hx : h.tag (.ds d) .read with
+    | none => rw [hx] at h2; simp only [reduceCtorEq, false_iff] at h2; simp [h2]
+    | some b =>
+      cases b
+      · exact absurd hx h1
+      · rw [hx] at h2; simp only [true_iff] at h2; simp [h2]
+  · intro d hd
+    unfold WR
+    rw [tag_composeSub_of _ _ _ _ _ (fun x => ds_ne_of_isDataset hd hobj x.1)]
+    have h1 := hh.wr d hd
+    have h2 := hwr d hd
+    unfold WR at h2
+    cases hx : h.tag (.ds d) .write with
+    | none => simp
+    | some b =>
+      cases b
+      · exact absurd hx h1
+      · exact absurd hx h2
+
+/-! ### `initHolder` without CTEs -/
+
+theorem tag_initHolder (ctx : Ctx) (hc : ctx.cte = []) (d : DS) (t : Tag) :
+    (initHolder ctx).tag (.ds d) t = if d ∈ ctx.write.map (·.d) ∧ t = .write then some true else none := by
+  unfold initHolder
+  rw [hc]
+  simp only [List.foldl_nil]
+  split
+  · rw [tag_foldl_addWriteO, tag_empty]
+  · rw [(sameDs_addWriteColumns _ _).eq, tag_foldl_addWriteO, tag_empty]
+
+theorem initHolder_inv (ctx : Ctx) (hc : ctx.cte = []) : Inv (initHolder ctx) := by
+  refine ⟨?_, ?_, ?_⟩
+  · intro d; rw [tag_initHolder _ hc]; split <;> simp_all
+  · intro d; rw [tag_initHolder _ hc]; split <;> simp_all
+  · intro d _; rw [tag_initHolder _ hc]; split <;> simp
+
+theorem initHolder_rd (ctx : Ctx) (hc : ctx.cte = []) (d : DS) : ¬ RD (initHolder ctx) d := by
+  unfold RD; rw [tag_initHolder _ hc]; split <;> simp_all
+
+theorem initHolder_wr (ctx : Ctx) (hc : ctx.cte = []) (d : DS) : WR (initHolder ctx) d ↔ d ∈ ctx.write.map (·.d) := by
+  unfold WR; rw [tag_initHolder _ hc]
+  by_cases h : d ∈ ctx.write.map (·.d) <;> simp [h]
+
+/-! ### `finishBranches` -/
+
+theorem fb_fold_fst (env : Env) (g : LGraph) (l : List ((List Item × List FromExpr) × Nat))
+    (acc : List DObj × List ColSpec × List (Nat × Nat)) :
+    (l.foldl
+      (fun (acc : List DObj × List ColSpec × List (Nat × Nat)) (b : (List Item × List FromExpr) × Nat) =>
+        let bs := if b.2 != 0 then acc.2.2 ++ [(acc.2.1.length, acc.1.length)] else acc.2.2
+        (acc.1 ++ tablesOfFrom env g b.1.2, acc.2.1 ++ b.1.1.map (colSpecOf env), bs)) acc).1
+      = acc.1 ++ l.flatMap (fun b => tablesOfFrom env g b.1.2) := by
+  induction l generalizing acc with
+  | nil => simp
+  | cons b r ih => simp only [List.foldl_cons, ih, List.flatMap_cons, List.append_assoc]
+
+/-- all tables collected by `finishBranches` -/
+def fbTables (env : Env) (g : LGraph) (branches : List (List Item × List FromExpr)) : List DObj :=
+  branches.flatMap (fun b => tablesOfFrom env g b.2)
+
+theorem tag_finishBranches (env : Env) (g : LGraph) (branches : List (List Item × List FromExpr)) (g' : LGraph)
+    (h : finishBranches env g branches = .ok g') (d : DS) (t : Tag) :
+    g'.tag (.ds d) t = if d ∈ (fbTables env g branches).map (·.d) ∧ t = .read then some true else g.tag (.ds d) t := by
+  unfold finishBranches at h
+  simp only at h
+  split at h
+  · rename_i g1 h1
+    rw [← ok_inj h, (sameDs_expandWildcard _ _).eq, tag_endOfQueryCleanup _ _ _ _ _ _ _ h1, fb_fold_fst]
+    simp only [List.nil_append]
+    unfold fbTables
+    conv => rhs; rw [← List.zipIdx_map_fst 0 branches, List.flatMap_map]
+  · cases h
+
+theorem adds_finishBranches (env : Env) (g : LGraph) (branches : List (List Item × List FromExpr)) (g' : LGraph)
+    (hi : Inv g) (h : finishBranches env g branches = .ok g') :
+    Adds g g' ((fbTables env g branches).map (·.d)) := by
+  have T := tag_finishBranches env g branches g' h
+  refine ⟨⟨?_, ?_, ?_⟩, ?_, ?_⟩
+  · intro d; rw [T]; split
+    · simp
+    · exact hi.rd d
+  · intro d; rw [T]; split
+    · rename_i hx; cases hx.2
+    · exact hi.cte d
+  · intro d hd; rw [T]; split
+    · rename_i hx; cases hx.2
+    · exact hi.wr d hd
+  · intro d _
+    unfold RD; rw [T]
+    by_cases hx : d ∈ (fbTables env g branches).map (·.d) <;> simp [hx]
+  · intro d _
+    unfold WR; rw [T]; rw [if_neg]
+    intro hx; cases hx.2
+
 end SqlLineage.Proofs.ReadsExact
